@@ -96,7 +96,20 @@ pub open spec fn decodable(c: StructureTag) -> bool {
     }
 }
 
+// std's Iterator::nth on the element iterator (a provided trait method, which `assume_specification` cannot reach): skip n
+// items, return the next one.  Only here so that a change which calls it is decided; the unchanged text does not use it.
+pub trait VerifNth: Sized {
+    fn verif_nth(&mut self, n: usize) -> Option<StructureTag>;
+}
+impl VerifNth for std::vec::IntoIter<StructureTag> {
+    #[verifier::external_body]
+    fn verif_nth(&mut self, n: usize) -> (r: Option<StructureTag>)
+        ensures n < (*old(self)).remaining().len() ==> (r == Some((*old(self)).remaining()[n as int]) && (*final(self)).remaining() == (*old(self)).remaining().skip(n as int + 1)),
+            n >= (*old(self)).remaining().len() ==> (r is None && (*final(self)).remaining().len() == 0),
+    { unimplemented!() }
+}
 //@lift name=parse_controls file=src/controls_impl.rs fn=parse_controls
+//@ sub ".nth(" => ".verif_nth(" count=*
 //@ ret r
 //@ loop 1 iter=it
         invariant
